@@ -59,6 +59,7 @@ STR = P("str")
 BOOL = P("bool")
 NONE = P("none")
 FLOAT = P("float")
+ATTRVAL = P("attrval")     # value of an attribute store: a primitive or a builtin list / tuple (declared dict value typing)
 
 
 def OBJ(cls, inv=True, nullable=False, subclasses=None):
@@ -136,8 +137,13 @@ class Contract:
         self.params[name] = p
         return self
 
-    def req(self, label, fn):
-        self.requires.append(Clause(label, fn))
+    def req(self, label, fn, new_object_fact=False):
+        """new_object_fact: a statement about the initial state of the object an __init__ is constructing (e.g. "it has no
+        such attribute yet").  It is true of every newly allocated object by the language semantics, so at a call (which
+        only happens through instantiation) it is assumed, not proved."""
+        cl = Clause(label, fn)
+        cl.new_object_fact = new_object_fact
+        self.requires.append(cl)
         return self
 
     def ens(self, label, fn, props=None):
@@ -191,6 +197,16 @@ class ExternContract:
 def extern(name, note=""):
     def deco(fn):
         REGISTRY["extern:" + name] = ExternContract(name, fn, note)
+        return fn
+    return deco
+
+
+GLOBAL_FACTS = {}      # (module name, global name) -> fn(S, value) -> Bool: trusted facts about a module-level object
+
+
+def global_fact(module, name):
+    def deco(fn):
+        GLOBAL_FACTS[(module, name)] = fn
         return fn
     return deco
 
@@ -373,7 +389,13 @@ class SpecCtx:
         """v is a pre-existing object (not allocated by this call) of exact class clsname."""
         # "already allocated": cannot alias anything allocated later on this path
         bound = self.I.st.ghost.get("_pre_bound") or self.I.st.next_id
-        return z3.And(self.isinst(v, clsname, heap), Val.r(v) > 0, Val.r(v) < bound)
+        g = z3.And(self.isinst(v, clsname, heap), Val.r(v) > 0, Val.r(v) < bound)
+        excl = self.I.st.ghost.get("_pre_exclude")
+        if excl:
+            # ... and it is none of the objects this path created and kept to itself (never stored, never handed to code
+            # that could keep them): nothing else can refer to those
+            g = z3.And(g, *[Val.r(v) != k for k in excl])
+        return g
 
     def fresh(self, name, sort):
         return self.I.ctx.fresh(name, sort)
